@@ -6,6 +6,7 @@
 -/
 import Mathlib.Analysis.SpecialFunctions.Trigonometric.Deriv
 import Mathlib.Analysis.Calculus.Deriv.MeanValue
+import Mathlib.Analysis.SpecialFunctions.Trigonometric.Basic
 import Mathlib.Data.Finset.Max
 import Mathlib.Data.List.Basic
 
@@ -108,5 +109,41 @@ theorem between_list (A B t0 t1 t : ℝ) (E : List ℝ) (h0 : t0 ∈ E) (h1 : t1
   · exact ⟨s, sE, u, uE, ss, uu, l1, l2⟩
   · exact ⟨u, uE, s, sE, uu, ss, l1, l2⟩
   · exact ⟨u, uE, u, uE, uu, uu, l1, l2⟩
+
+/-- the critical parameters of a non-constant coordinate are one of them plus the integer multiples
+    of a half turn — the `(tau / 2) * k` shifts of `Arc.bbox` -/
+theorem critical_spacing (A B x0 x : ℝ) (hAB : A ≠ 0 ∨ B ≠ 0) (h0 : g A B x0 = 0) :
+    g A B x = 0 ↔ ∃ n : ℤ, x = x0 + n * π := by
+  unfold g at *
+  constructor
+  · intro hx
+    have eA : A * sin (x - x0) = 0 := by
+      rw [sin_sub]; linear_combination (-cos x0) * hx + (cos x) * h0
+    have eB : B * sin (x - x0) = 0 := by
+      rw [sin_sub]; linear_combination (-sin x0) * hx + (sin x) * h0
+    have hs : sin (x - x0) = 0 := by
+      rcases hAB with h | h
+      · exact (mul_eq_zero.mp eA).resolve_left h
+      · exact (mul_eq_zero.mp eB).resolve_left h
+    obtain ⟨n, hn⟩ := sin_eq_zero_iff.mp hs
+    exact ⟨n, by linarith⟩
+  · rintro ⟨n, rfl⟩
+    rcases Int.even_or_odd n with hn | hn
+    · obtain ⟨k, rfl⟩ := hn
+      have c : cos (x0 + ((k + k : ℤ) : ℝ) * π) = cos x0 := by
+        have : x0 + ((k + k : ℤ) : ℝ) * π = x0 + k * (2 * π) := by push_cast; ring
+        rw [this, cos_add_int_mul_two_pi]
+      have s : sin (x0 + ((k + k : ℤ) : ℝ) * π) = sin x0 := by
+        have : x0 + ((k + k : ℤ) : ℝ) * π = x0 + k * (2 * π) := by push_cast; ring
+        rw [this, sin_add_int_mul_two_pi]
+      rw [c, s]; exact h0
+    · obtain ⟨k, rfl⟩ := hn
+      have c : cos (x0 + ((2 * k + 1 : ℤ) : ℝ) * π) = -cos x0 := by
+        have : x0 + ((2 * k + 1 : ℤ) : ℝ) * π = (x0 + π) + k * (2 * π) := by push_cast; ring
+        rw [this, cos_add_int_mul_two_pi, cos_add_pi]
+      have s : sin (x0 + ((2 * k + 1 : ℤ) : ℝ) * π) = -sin x0 := by
+        have : x0 + ((2 * k + 1 : ℤ) : ℝ) * π = (x0 + π) + k * (2 * π) := by push_cast; ring
+        rw [this, sin_add_int_mul_two_pi, sin_add_pi]
+      rw [c, s]; linear_combination -h0
 
 end Svg.ArcMono
